@@ -14,6 +14,9 @@ op  = ["bind", m, prefix|None, ns, override, replace]   Graph.bind / NamespaceMa
       ["parsexml", m, [[prefix|None, ns]…]]  RDF/XML document with xmlns attributes
       ["ser", m, s, p, o]                serialize(format="turtle") of a graph holding that triple
       ["split", iri, strict]             rdflib.namespace.split_uri(iri[, NAME_START_CATEGORIES]) (stateless)
+      ["ncname", text]                   rdflib.namespace.is_ncname(text) (stateless)
+      ["catrange", lo, hi]               unicodedata.category of every code point lo ≤ c < hi, run-length encoded
+                                         (stateless; the 272 blocks of 4096 code points are walked round-robin by case index)
       ["serdoc", m, fmt, [[s, p, o, kind]…]]  serialize(format=turtle|n3) of a fresh graph (same store, same
                                          manager) holding these triples (kind "u" IRI / "l" plain literal); the
                                          OUTPUT is checked (prefix table, re-parse) and its @prefix table is
@@ -26,6 +29,7 @@ Property oracle (independent of Lean): the three clauses evaluated on the implem
 import io
 import logging
 import re
+import unicodedata
 import warnings
 
 import core  # noqa: F401
@@ -51,7 +55,8 @@ RULE = ("random histories (3-18 ops) of bind (override x replace, None/empty/und
         "or two managers on the store, and graphs that borrow the manager of a graph on another store (constructor argument "
         "or setter); bind_namespaces none/core/rdflib.  non-trivial = some bind met an already bound "
         "prefix or namespace and a later qname-family call returned a prefixed name; distinct = distinct histories")
-ASSUMPTIONS = ["unicodedata.category as tabulated in Tables.lean (ASCII + 13 probes; generators draw only from these)",
+ASSUMPTIONS = ["unicodedata.category of the running Python = Tables.lean (regenerated for all of Unicode on every run; the "
+               "compiled lookup is compared with unicodedata on every code point, block by block, in every run)",
                "IRIs are Python str without lone surrogates",
                "stores other than Memory/SimpleMemory (SPARQLStore, BerkeleyDB) are outside the model"]
 TRUSTED = ["harness/c17.py generators, canonicalisation (generated prefixes renamed by the namespace they are bound to)",
@@ -97,9 +102,51 @@ _SP_INNER = [".", "-", "%", "·", "(", ")", "́", "ʰ", "ः"]
 _SP_BREAK = ["/", "#", ":", "€", "?", "=", "~", "@"]
 
 
+_RUNS = c17_tables.category_runs() + [(c17_tables.LIMIT, None)]
+# runs a generated character may come from: no controls / line separators (line protocol), no surrogates (ASSUMPTIONS)
+_UNI_RUNS = [(a, _RUNS[i + 1][0]) for i, (a, k) in enumerate(_RUNS[:-1]) if k not in ("Cc", "Cs", "Zl", "Zp")]
+_STATELESS = ("sbind", "expand", "split", "ncname", "catrange")
+CAT_BLOCK = 4096
+CAT_BLOCKS = c17_tables.LIMIT // CAT_BLOCK
+
+
+def uni_char(rng):
+    """a character from anywhere in Unicode: a random run of one general category (so that every category, however
+    few code points it has, is drawn often), then a random code point of the run"""
+    while True:
+        a, b = rng.choice(_UNI_RUNS)
+        c = chr(rng.randrange(a, b))
+        if c not in ' |>\x85':
+            return c
+
+
+def uni_local(rng):
+    """a local name with characters from anywhere in Unicode, mostly name characters"""
+    out = []
+    for _ in range(rng.randint(1, 4)):
+        r = rng.random()
+        out.append(uni_char(rng) if r < 0.6 else rng.choice(_SP_START + _SP_DIGIT + _SP_INNER))
+    return "".join(out)
+
+
+def gen_ncname_probe(rng):
+    r = rng.random()
+    if r < 0.1:
+        return rng.choice(["", "_", "a", "1", "-", "a:b", "a b", "·a", "a·"])
+    first = _w(rng, [(rng.choice(_SP_START), 5), (uni_char(rng), 4), (rng.choice(_SP_DIGIT + _SP_INNER + _SP_BREAK), 2)])
+    rest = "".join(_w(rng, [(rng.choice(_SP_START + _SP_DIGIT + _SP_INNER), 6), (uni_char(rng), 4), (rng.choice(_SP_BREAK), 1)])
+                   for _ in range(rng.randint(0, 4)))
+    return first + rest
+
+
 def gen_split_iri(rng):
     r = rng.random()
-    if r < 0.08:
+    if r < 0.3:  # characters from anywhere in Unicode around the split point
+        head = rng.choice(["", "http://e.org/", "urn:x:", "/", "a"])
+        body = "".join(_w(rng, [(uni_char(rng), 5), (rng.choice(_SP_START + _SP_DIGIT + _SP_INNER), 3), (rng.choice(_SP_BREAK), 2)])
+                       for _ in range(rng.randint(1, 6)))
+        return head + body
+    if r < 0.38:
         return XMLNS + "".join(rng.choice(_SP_START + _SP_BREAK + _SP_INNER) for _ in range(rng.randint(0, 3)))
     head = rng.choice(["", "", "http://e.org/", "urn:x:", "/", "a", "1", "-", "é/"])
     mid = "".join(rng.choice(_SP_START + _SP_DIGIT + _SP_INNER + _SP_BREAK) for _ in range(rng.randint(0, 4)))
@@ -160,6 +207,14 @@ def gen_collision_case(rng):
 
 
 def gen_case(rng, tier, i):
+    case = _gen_case(rng, tier, i)
+    if i % 4 == 0:  # the category table itself: all 272 blocks are compared at least twice per quick run
+        b = (i // 4) % CAT_BLOCKS
+        case["ops"].insert(rng.randint(0, len(case["ops"])), ["catrange", b * CAT_BLOCK, (b + 1) * CAT_BLOCK])
+    return case
+
+
+def _gen_case(rng, tier, i):
     if rng.random() < 0.12:
         return gen_collision_case(rng)
     cfg = _w(rng, [("memory", 4), ("simple", 3), ("dataset", 3), ("foreign", 2)])
@@ -178,7 +233,7 @@ def gen_case(rng, tier, i):
     iris = []
     for n in list(vn):
         for _ in range(rng.randint(1, 3)):
-            loc = rng.choice(LOCALS)
+            loc = rng.choice(LOCALS) if rng.random() < 0.8 else uni_local(rng)
             iris.append(n + loc)
             # locals that are not NCNames: compute_qname_strict splits later; make that namespace bindable too
             if n and loc in STRICT_HEAD and rng.random() < 0.7:
@@ -211,7 +266,7 @@ def gen_case(rng, tier, i):
             ops.append(list(rng.choice(qs)))  # ask again later: (q, bind, q) interleavings
             continue
         kind = _w(rng, [("bind", 38), ("sbind", 3), ("qname", 12), ("cq", 9), ("cqs", 5), ("qstrict", 3), ("curie", 7),
-                        ("n3", 6), ("expand", 4), ("reset", 3), ("parse", 4), ("parsexml", 2), ("ser", 3), ("serdoc", 3), ("split", 7)])
+                        ("n3", 6), ("expand", 4), ("reset", 3), ("parse", 4), ("parsexml", 2), ("ser", 3), ("serdoc", 3), ("split", 7), ("ncname", 2)])
         if kind == "bind":
             ov, rp = _w(rng, [((True, False), 5), ((False, False), 2), ((True, True), 2), ((False, True), 2)])
             ops.append(["bind", mgr(), pre(), rng.choice(vn), ov, rp])
@@ -245,6 +300,8 @@ def gen_case(rng, tier, i):
             ops.append(["ser", mgr(), rng.choice(valid), rng.choice(valid), rng.choice(valid)])
         elif kind == "split":
             ops.append(["split", gen_split_iri(rng) if rng.random() < 0.8 else rng.choice(iris), rng.random() < 0.35])
+        elif kind == "ncname":
+            ops.append(["ncname", gen_ncname_probe(rng)])
         elif kind == "serdoc":
             ops.append(["serdoc", mgr(), rng.choice(["turtle", "turtle", "n3"]), _doc_triples(rng, absns, counter, rng.randint(1, 4))])
     case = {"cfg": cfg, "bn": bn, "bn1": bn1, "vp": vp, "vn": vn, "ops": ops}
@@ -261,7 +318,7 @@ def steps(case):
     out = [["minit", 0, case["bn"]]]
     made1 = False
     for op in case["ops"]:
-        if op[0] not in ("sbind", "expand", "split") and op[1] == 1 and not made1:
+        if op[0] not in _STATELESS and op[1] == 1 and not made1:
             made1 = True
             out.append(["minit", 1, case["bn1"]])
         out.append(op)
@@ -474,6 +531,17 @@ class Impl:
         if kind == "split":
             r = _N.split_uri(op[1], _N.NAME_START_CATEGORIES) if op[2] else _N.split_uri(op[1])
             return "split %s>%s" % (str(r[0]), r[1]), (str(r[0]), r[1])
+        if kind == "ncname":
+            return "nc %d" % _N.is_ncname(op[1]), None
+        if kind == "catrange":
+            rle = []
+            for c in range(op[1], op[2]):
+                k = unicodedata.category(chr(c))
+                if rle and rle[-1][0] == k:
+                    rle[-1][1] += 1
+                else:
+                    rle.append([k, 1])
+            return "cats " + " ".join("%s*%d" % (k, n) for k, n in rle), None
         g = self.graph(op[1])
         nm = g.namespace_manager
         if kind == "bind":
@@ -663,6 +731,10 @@ def model_lines(case):
             lines.append(f"expand {_e(op[1])}")
         elif k == "split":
             lines.append(f"split {_b(op[2])} {_e(op[1])}")
+        elif k == "ncname":
+            lines.append(f"ncname {_e(op[1])}")
+        elif k == "catrange":
+            lines.append(f"catrange {op[1]} {op[2]}")
         elif k == "reset":
             lines.append(f"reset {op[1]}")
         elif k in ("parse", "parsexml"):
@@ -694,7 +766,7 @@ def shrink(case):
     if case["cfg"] != "memory":
         yield {**case, "cfg": "memory", "bn1": "none"}
     for i, op in enumerate(ops):
-        if op[0] not in ("sbind", "expand", "split") and op[1] == 1:
+        if op[0] not in _STATELESS and op[1] == 1:
             yield {**case, "ops": ops[:i] + [[op[0], 0] + op[2:]] + ops[i + 1:]}
         if op[0] == "serdoc" and len(op[3]) > 1:
             for j in range(len(op[3])):
